@@ -162,6 +162,7 @@ class AppWorld:
 			app_common.ApplicationBase.app_init_logging = old_init
 			signal.signal(signal.SIGINT, old_sigint)
 		capture_logging()
+		self.app_binds = list(self.net.bind_log)     # sockets bound by the application itself
 		self.gen = self.app.clck_gen
 		self.breaker = vclock.VEvent(self.vt, gated = gated)
 		self.gen._breaker = self.breaker
